@@ -269,13 +269,16 @@ TBalanced ==
 \* the engine panicked during a valid call sequence (recorded by the recorder's recover handler)
 \* every Zobrist key, derived from hashes of positions that differ in one feature: different features, different keys
 \* (what lets GameModel.tla treat the hash as the SET of features of the position), none of them zero
+\* reported under the property whose check recorded it (C04: the hash tells positions apart; C10: repetitions are
+\* counted by comparing hashes)
+ZRule == (IF "PROP" \in DOMAIN IOEnv THEN IOEnv.PROP ELSE "C04") \o "/zobrist-keys-collide"
 TZKeys ==
   /\ IsEvent("zkeys")
   /\ LET ev == Trace[l]
          n == Len(ev.zkeys)
          dup == {i \in 1..n : \E j \in 1..n : j < i /\ ev.zkeys[j] = ev.zkeys[i]}
-     IN /\ Expect(dup = {}, ev, "C04/zobrist-keys-collide", "", [pairs |-> {<<ev.znames[CHOOSE j \in 1..n : j < i /\ ev.zkeys[j] = ev.zkeys[i]], ev.znames[i]>> : i \in dup}])
-        /\ Expect(\A i \in 1..n : ev.zkeys[i] # "0000000000000000", ev, "C04/zobrist-keys-collide", "", [zero |-> {ev.znames[i] : i \in {k \in 1..n : ev.zkeys[k] = "0000000000000000"}}])
+     IN /\ Expect(dup = {}, ev, ZRule, "", [pairs |-> {<<ev.znames[CHOOSE j \in 1..n : j < i /\ ev.zkeys[j] = ev.zkeys[i]], ev.znames[i]>> : i \in dup}])
+        /\ Expect(\A i \in 1..n : ev.zkeys[i] # "0000000000000000", ev, ZRule, "", [zero |-> {ev.znames[i] : i \in {k \in 1..n : ev.zkeys[k] = "0000000000000000"}}])
   /\ UNCHANGED <<gvars, rootBad, lost>>
 
 TPanic ==
